@@ -187,14 +187,29 @@ def infoDict (page : ObjId) : Dict :=
   [(OL_D, .arr [oref page, .name OL_FIT]), (OL_S, .name OL_GOTO)]
 
 /-- the five unconditional `child.set` calls -/
-def baseItem (parent : ObjId) (b : Bm) (infoId : ObjId) : Dict :=
-  ((((Dict.set [] OL_PARENT (oref parent)).set OL_TITLE (.str (titleBytes b.title) .lit)).set OL_A (oref infoId)).set
-    OL_F (.int b.format)).set OL_C (.arr (b.color.map Obj.real))
+def baseItem (parent : ObjId) (title : List Nat) (format : Nat) (color : List Bytes) (infoId : ObjId) : Dict :=
+  ((((Dict.set [] OL_PARENT (oref parent)).set OL_TITLE (.str (titleBytes title) .lit)).set OL_A (oref infoId)).set
+    OL_F (.int format)).set OL_C (.arr (color.map Obj.real))
 
 def setOpt (d : Dict) (k : Bytes) (v : Option ObjId) : Dict :=
   match v with
   | some n => d.set k (oref n)
   | none => d
+
+/-- the `if first.is_none() { first = Some(id) } else if let Some(x) = last { … }` step of the loop:
+new `first`, `processed` with `Next` patched into the previous sibling, `child` with `Prev`.
+`none` = `processed.get_mut(&x).unwrap()` panics. -/
+def linkStep (first last : Option ObjId) (pr : Proc) (child : Dict) (id : ObjId) :
+    Option (Option ObjId × Proc × Dict) :=
+  match first with
+  | none => some (some id, pr, child)
+  | some _ =>
+    match last with
+    | some x =>
+      match pr.get x with
+      | none => none
+      | some _ => some (first, pr.modify x (fun d => d.set OL_NEXT (oref id)), child.set OL_PREV (oref x))
+    | none => some (first, pr, child)
 
 /-- `Document::outline_child`: the `for` loop over `parent.1`, with the loop state
 (`first`, `last`, `*maxid`, `processed`) as arguments.  `none` = `unwrap` panic or out of fuel. -/
@@ -209,18 +224,7 @@ def ocLoop (t : BmTable) :
     | some b =>
       let id : ObjId := (m + 1, 0)
       let infoId : ObjId := (m + 2, 0)
-      let child := baseItem parent b infoId
-      let linked : Option (Option ObjId × Proc × Dict) :=
-        match first with
-        | none => some (some id, pr, child)
-        | some _ =>
-          match last with
-          | some x =>
-            match pr.get x with
-            | none => none
-            | some _ => some (first, pr.modify x (fun d => d.set OL_NEXT (oref id)), child.set OL_PREV (oref x))
-          | none => some (first, pr, child)
-      match linked with
+      match linkStep first last pr (baseItem parent b.title b.format b.color infoId) id with
       | none => none
       | some (first', pr1, child1) =>
         if b.children.isEmpty then
